@@ -60,6 +60,12 @@ def scenarios(tier, seed=0):
             for start in ("2001/05/01", "2001/04/21"):
                 spec = A.catalogue_spec(name, soil="SandyLoam", word="warm", cropkw=kw, start=start)
                 yield {"kind": "spec", "spec": spec, "label": ["override", name, kw, start]}
+    # degree-day methods 1-3 under days that lie entirely below the base or above the upper temperature
+    blocks = [[d, "F"] for d in range(20, 24)] + [[d, "T"] for d in range(30, 34)] + [[d, "C"] for d in range(40, 43)]
+    for name in (sub if tier == "quick" else names):
+        for meth in (1, 2, 3):
+            spec = A.catalogue_spec(name, soil="SandyLoam", word="warm", dev=blocks, cropkw={"GDDmethod": meth})
+            yield {"kind": "spec", "spec": spec, "label": ["gddmethod", name, meth]}
     # scaled crops with a single deviating day at every day of the season
     scaled = ["maize.2", "potato.2", "cotton.2"] if tier == "quick" else ["maize.2", "potato.2", "cotton.2", "rice.2", "wheat.15", "soybean.2", "tomato.2"]
     syms = ("C", "H") if tier == "quick" else ("C", "H", "D", "S")
